@@ -1,10 +1,12 @@
 /-
   C02 — what csvq writes to a table file or result stream reads back as the same table.
 
-  Property theorems only (helper lemmas: Csvq/Lemmas/Csv.lean, CsvRect.lean, Ltsv.lean, Fixed.lean).
+  Property theorems only (helper lemmas: Csvq/Lemmas/Csv.lean, CsvRect.lean, Ltsv.lean, Fixed.lean, FixedAuto.lean,
+  Json.lean, JsonTable.lean, JsonLex.lean, JsonPath.lean, Encoding.lean, EncFacts.lean).
   All theorems quantify over ALL tables: any number of rows and columns, any cell text over all
   characters (`List Char`, i.e. the text after transcoding; the transcoders are a parameter of the
-  property, see DESIGN.md C02), NULL a distinguished cell.  `decode… (file… t)` is the composition
+  property — section "transcoding" below: any sound encoder / decoder pair, with UTF-8, UTF-8 with BOM and
+  UTF-16 modelled and proved sound), NULL a distinguished cell.  `decode… (file… t)` is the composition
   "what `EncodeView` + the ending line break put into the file" ∘ "what the loader makes of it".
 
   CSV / TSV.  The statement that applies to the code (since /repo 3f80460, where `encodeCSV` marks
@@ -42,6 +44,7 @@ import Csvq.Lemmas.EncFacts
 import Csvq.Lemmas.Encoding
 import Csvq.Lemmas.JsonPath
 import Csvq.Lemmas.JsonLex
+import Csvq.Lemmas.FixedAuto
 namespace Csvq.C02
 open Csvq.Csv
 
@@ -547,8 +550,9 @@ end L
           generated positions do not increase and the writer refuses the table
                                                   [roundtrip:fixed:empty_column]
           → `fixed_empty_column_counterexample`
-  Automatic detection of the positions when READING (`Delimiter.Delimit`) is a heuristic and is not
-  modelled: harness laws only (roundtrip:fixed:automatic_positions, …cr_line_break_automatic_positions). -/
+  Automatic detection of the positions when READING (`Delimiter.Delimit`, a heuristic): modelled in
+  Csvq.Model.FixedAuto, see "automatic delimiter positions" below (`fixed_auto_roundtrip` and its
+  counter-witnesses). -/
 
 namespace F
 open Csvq.Fixed
@@ -696,6 +700,152 @@ theorem fixed_no_shift (wd : Char → Nat) (hwd : ∀ c, 1 ≤ wd c) (hw : wd ' 
   | none => rfl
   | some r => simp [List.getElem?_map]
 
+
+/-! ### automatic delimiter positions
+
+  Model of the reader side: Csvq.Model.FixedAuto (`delimit` = go-text `Delimiter.Delimit`, a heuristic over the
+  blank runs of all lines; compared with the real one on written, mutated and hand-laid-out texts: ops c02.fpos,
+  c02.deca).  `fixed_auto_roundtrip`: a table written with automatic positions reads back — positions detected
+  from the text alone — as `canon`, if (`AutoSpellable`)
+    * every cell, and every header name that is written, is non-empty and contains no white space
+      (`unicode.IsSpace`; so no inner, leading or trailing blanks and no line breaks),
+    * in every column but the first, every field begins at the first byte of its column: it is left-aligned
+      (String, Datetime, header names) or as wide as the column (`Flush`; `fixed_auto_roundtrip_left` is the
+      special case "all left-aligned"),
+    * the line break is LF or CR LF.
+  The widths (`measure`: the longest text of each column in bytes), the positions (`positionsOf`: running sums)
+  and the separating blank are what `encodeFixedLengthFormat` does (`gen_fixed_writer_eq_ref`), the alignment by
+  type is `gen_convert_field_contents_eq_ref`.  The positions found are, column by column, the largest end of a
+  value (`delimit_written`).
+  Outside the predicate the heuristic does go wrong, confirmed on the real code:
+    `fixed_auto_right_aligned_counterexample`   a shorter header over right-aligned numbers of different lengths
+                                                in a column that is not the first: 12345 is split into 1234 | 5;
+    `fixed_auto_inner_blank_counterexample`     a text with an inner blank becomes two columns (F16);
+    `fixed_empty_column_counterexample`         an all-empty column is refused by the writer (above). -/
+
+/-- what a table must be like for the automatic positions to be found again -/
+def AutoSpellable (wd : Char → Nat) (o : Fixed.Opts) (t : Fixed.Table) : Prop :=
+  t.header ≠ [] ∧ (∀ r ∈ frecords o t, r.length = t.header.length) ∧
+  (∀ r ∈ frecords o t, ∀ f ∈ r, (∀ c ∈ f.contents, isSpace c = false) ∧ f.contents ≠ []) ∧
+  (∀ r ∈ frecords o t, Flush wd (measure wd t.header.length (frecords o t)).tail r.tail) ∧
+  o.lb ≠ .cr ∧ o.ending ≠ some .cr
+
+/-- **Round trip, fixed-length, AUTOMATIC positions.** -/
+theorem fixed_auto_roundtrip (wd : Char → Nat) (hwd : ∀ c, 1 ≤ wd c) (hw : wd ' ' = 1)
+    (o : Fixed.Opts) (t : Fixed.Table) (ho : o.positions = none) (hs : AutoSpellable wd o t)
+    (b : List Char) (hb : fileFixed wd o t = .ok b) :
+    decodeFixedAuto wd o b = .ok (Fixed.canon o t) := by
+  obtain ⟨hhne, hlen, hcells, hflush, hlb, hend⟩ := hs
+  unfold fileFixed encodeFixed at hb
+  simp only [ho] at hb
+  change (match (match frecords o t with
+      | [] => Except.error Fixed.EncErr.dataEmpty
+      | recs => Fixed.writeAll wd true o.lb (positionsOf 0 (measure wd t.header.length recs)) recs) with
+    | .ok cs => Except.ok (cs ++ endingChars o.ending)
+    | .error e => .error e) = .ok b at hb
+  cases hr : frecords o t with
+  | nil => rw [hr] at hb; cases hb
+  | cons r more =>
+    rw [hr] at hb hlen hcells hflush
+    simp only at hb
+    obtain ⟨w, ws, hws⟩ : ∃ w ws, measure wd t.header.length (r :: more) = w :: ws := by
+      have hl := measure_length wd t.header.length (r :: more)
+      cases hm : measure wd t.header.length (r :: more) with
+      | nil =>
+        rw [hm] at hl
+        have : t.header.length = 0 := by simpa using hl.symm
+        exact absurd (List.length_eq_zero_iff.mp this) hhne
+      | cons w ws => exact ⟨w, ws, rfl⟩
+    have hwl : ws.length + 1 = t.header.length := by
+      have hl := measure_length wd t.header.length (r :: more)
+      rw [hws] at hl
+      simpa using hl
+    rw [hws] at hb hflush
+    simp only [Fixed.writeAll] at hb
+    cases hs1 : Fixed.writeRecord wd true (positionsOf 0 (w :: ws)) r with
+    | error e => rw [hs1] at hb; cases hb
+    | ok s =>
+      rw [hs1] at hb
+      simp only at hb
+      cases hm : Fixed.writeMore wd true o.lb (positionsOf 0 (w :: ws)) more with
+      | error e => rw [hm] at hb; cases hb
+      | ok rest =>
+        rw [hm] at hb
+        simp only at hb
+        injection hb with hb
+        subst hb
+        have hlen' : ∀ x ∈ r :: more, x.length = (w :: ws).length := by
+          intro x hx; rw [hlen x hx]; simp [hwl]
+        obtain ⟨e1, f1⟩ := writeFields_lineOf wd (w :: ws) r true 0 s (hlen' r (by simp)) hs1
+        obtain ⟨e2, f2⟩ := writeMore_lineOf wd o.lb (w :: ws) more rest (fun x hx => hlen' x (by simp [hx])) hm
+        subst e1; subst e2
+        have H : Written wd w ws (r :: more) :=
+          ⟨fun x hx => by rw [hlen x hx]; omega,
+           fun x hx => by
+             rcases List.mem_cons.mp hx with rfl | hx
+             · exact f1
+             · exact f2 x hx,
+           fun x hx => hcells x hx,
+           fun x hx => by simpa using hflush x hx⟩
+        obtain ⟨σ, hread, hrecs⟩ := readAll_written wd hwd hw o.withoutHeader w ws o.lb hlb o.ending hend r more H
+        have hassoc : lineOf wd true (w :: ws) r ++ moreText wd o.lb (w :: ws) more ++ endingChars o.ending
+            = lineOf wd true (w :: ws) r ++ (moreText wd o.lb (w :: ws) more ++ endingChars o.ending) := by
+          simp [List.append_assoc]
+        have hplen : (delimit wd o.withoutHeader
+            (lineOf wd true (w :: ws) r ++ (moreText wd o.lb (w :: ws) more ++ endingChars o.ending))).length = t.header.length := by
+          rw [delimit_written wd hwd hw o.withoutHeader w ws o.lb hlb o.ending hend r more H]
+          simp [colMaxes_length, hwl]
+        unfold decodeFixedAuto decodeFixed
+        rw [hassoc, hread]
+        simp only [hrecs, List.reverse_reverse, hplen]
+        unfold frecords at hr
+        unfold Fixed.assemble Fixed.canon
+        cases hw' : o.withoutHeader with
+        | true =>
+          simp only [hw', if_true] at hr ⊢
+          rw [← hr, autofill_autoNames]
+          simp [rowOf, Fixed.canonCell, List.map_map, Function.comp]
+        | false =>
+          simp only [hw', Bool.false_eq_true, if_false] at hr ⊢
+          simp only [List.cons.injEq] at hr
+          rw [← hr.1, ← hr.2]
+          simp [rowOf, headerFields, Fixed.canonCell, List.map_map, Function.comp]
+          rfl
+
+/-- the special case "every field after the first column is left-aligned" (texts, datetimes) -/
+theorem fixed_auto_roundtrip_left (wd : Char → Nat) (hwd : ∀ c, 1 ≤ wd c) (hw : wd ' ' = 1)
+    (o : Fixed.Opts) (t : Fixed.Table) (ho : o.positions = none)
+    (hhne : t.header ≠ []) (hlen : ∀ r ∈ frecords o t, r.length = t.header.length)
+    (hcells : ∀ r ∈ frecords o t, ∀ f ∈ r, (∀ c ∈ f.contents, isSpace c = false) ∧ f.contents ≠ [])
+    (hleft : ∀ r ∈ frecords o t, ∀ f ∈ r.tail, f.align = .left) (hlb : o.lb ≠ .cr) (hend : o.ending ≠ some .cr)
+    (b : List Char) (hb : fileFixed wd o t = .ok b) :
+    decodeFixedAuto wd o b = .ok (Fixed.canon o t) :=
+  fixed_auto_roundtrip wd hwd hw o t ho
+    ⟨hhne, hlen, hcells, fun r hr => flush_of_left wd _ _ (hleft r hr), hlb, hend⟩ b hb
+
+theorem fixed_auto_right_aligned_counterexample :
+    let wd : Char → Nat := fun _ => 1
+    let o : Fixed.Opts := { ending := some .lf }
+    let t : Fixed.Table := ⟨[['c'], ['a', 'b']],
+      [[⟨['x'], .left⟩, ⟨['1', '2', '3', '4', '5'], .right⟩], [⟨['y'], .left⟩, ⟨['1'], .right⟩]]⟩
+    fileFixed wd o t = .ok ("c ab   \nx 12345\ny     1\n".toList) ∧
+    delimit wd false ("c ab   \nx 12345\ny     1\n".toList) = [1, 6, 7] ∧
+    decodeFixedAuto wd o ("c ab   \nx 12345\ny     1\n".toList)
+      = .ok ⟨[['c'], ['a', 'b'], "__@3__".toList],
+             [[some ['x'], some ['1', '2', '3', '4'], some ['5']], [some ['y'], none, some ['1']]]⟩ := by
+  refine ⟨rfl, by decide, rfl⟩
+
+theorem fixed_auto_inner_blank_counterexample :
+    let wd : Char → Nat := fun _ => 1
+    let o : Fixed.Opts := { ending := some .lf }
+    let t : Fixed.Table := ⟨[['a'], ['b']],
+      [[⟨['x', ' ', 'y'], .left⟩, ⟨['1'], .right⟩], [⟨['x', ' ', 'y'], .left⟩, ⟨['2'], .right⟩]]⟩
+    fileFixed wd o t = .ok ("a   b\nx y 1\nx y 2\n".toList) ∧
+    decodeFixedAuto wd o ("a   b\nx y 1\nx y 2\n".toList)
+      = .ok ⟨[['a'], "__@2__".toList, ['b']],
+             [[some ['x'], some ['y'], some ['1']], [some ['x'], some ['y'], some ['2']]]⟩ := by
+  refine ⟨rfl, rfl⟩
+
 /-- F16: positions 3, 4; the record (`x⏎y`, `2`) fits its columns, is written `x⏎y2`, and reads back
     as two records (x, NULL), (y2, NULL). -/
 theorem fixed_linebreak_counterexample :
@@ -749,10 +899,12 @@ end F
     `json_rectangular`,        for ALL input texts (characters, not tokens): every record of the loaded
     `jsonl_rectangular`        table has header-many fields;
     `json_no_shift`.
-  The step from characters to tokens is proved for string tokens (`json_string_token`); for punctuation,
-  literals and number atoms it is covered by the correspondence streams jenc / jdec (model = real
-  encoder bytes, model = real loader on generated and mutated texts), as are pretty printing and the
-  embedding step.  Counter-witnesses for what the real code does not round-trip:
+  The step from characters to tokens is proved too (`json_scan_print`, section "characters" below: strings with
+  every escape of the three escape types, numbers in all spellings, literals, structural characters, white
+  space), so that `json_table_roundtrip_text` / `jsonl_table_roundtrip_text` hold from text to text and, through
+  any sound codec, from bytes to bytes (`T.json_roundtrip_encoded`).  Pretty printing and the embedding step are
+  covered by the correspondence streams jenc / jdec (model = real encoder bytes, model = real loader on generated
+  and mutated texts).  Column names as paths into nested objects: section P.  Counter-witnesses for what the real code does not round-trip:
     `json_trailing_backslash_counterexample` (F27), `json_empty_table_counterexample` (F27),
     `json_embedded_text_counterexample` (NEW: a String whose text is a JSON array / object is written as
     that array / object and comes back re-spelled: `[1, 2]` → `[1,2]`).
@@ -1400,6 +1552,28 @@ theorem gen_ending_line_break_eq_ref :
   [(["CSV", "TSV", "LTSV", "FIXED"], ["UTF16", "UTF16BE", "UTF16BEM"], "UTF16BE"),
    (["CSV", "TSV", "LTSV", "FIXED"], ["UTF16LE", "UTF16LEM"], "UTF16LE")] :=
   rfl
+
+/-- the fixed-length writer of the pinned go-text module, the decisions `Csvq.Model.Fixed` models:
+    `measure` (the width of a column = the largest byte size), `positionsOf` (running sums), the one blank
+    between two fields under `InsertSpace`, `addField` (refuse a text longer than its field; pad left / right /
+    both sides by the alignment).  With `gen_convert_field_contents_eq_ref` (numbers right-aligned, booleans
+    centred, everything else — String, Datetime, header names — not aligned = padded on the right) and
+    `gen_writer_options_eq_ref` (`NewMeasure`, `GeneratePositions`, `InsertSpace = true`) this is what
+    `F.fixed_auto_roundtrip` is about. -/
+theorem gen_fixedlen_eq_ref :
+    fixedlenMeasure =
+  ["l := text.ByteSize(v.Contents, m.Encoding)", "if len(m.size) <= i { m.size = append(m.size, l) } else if m.size[i] < l { m.size[i] = l }"] ∧
+    fixedlenPositions =
+  ["pos = pos + v", "p = append(p, pos)"] ∧
+    fixedlenSeparator =
+  ["e.InsertSpace && 0 < i", "e.writer.WriteByte(e.PadChar)"] ∧
+    fixedlenFit =
+  ["size := text.ByteSize(field.Contents, e.encoding)", "if fieldSize < size { error }", "padLen := fieldSize - size"] ∧
+    fixedlenAlign =
+  [("text.Centering", ["halfPadLen := padLen / 2", "bytes.Repeat([]byte{e.PadChar}, halfPadLen)", "field.Contents", "bytes.Repeat([]byte{e.PadChar}, padLen-halfPadLen)"]),
+   ("text.RightAligned", ["bytes.Repeat([]byte{e.PadChar}, padLen)", "field.Contents"]),
+   ("default", ["field.Contents", "bytes.Repeat([]byte{e.PadChar}, padLen)"])] :=
+  ⟨rfl, rfl, rfl, rfl, rfl⟩
 
 end G
 
